@@ -51,24 +51,24 @@ Section Rand.
   Definition fo_nbits : Prop :=
     forall size sp, in_i32 size = true -> bv_params_ok size sp = true -> nbits_sane size sp = true.
 
-  Lemma boolean_rand_safe : sem_safe boolean_rand.
+  Lemma boolean_rand_safe : sem_safe0 boolean_rand.
   Proof.
-    intros p w s W _. unfold boolean_rand. destruct (draw_range_ok (w_tape w) 0 2 ltac:(lia)) as (v & -> & _).
+    intros p w s W. unfold boolean_rand. destruct (draw_range_ok (w_tape w) 0 2 ltac:(lia)) as (v & -> & _).
     cbn [rbind ok_ws fst snd]. intros _. now apply wf_push_bool.
   Qed.
 
-  Lemma integer_rand_safe : sem_safe integer_rand.
+  Lemma integer_rand_safe : sem_safe0 integer_rand.
   Proof.
-    intros p w s W _. destruct (int_rand_in_range p w s) as (w' & s' & -> & H). cbn [ok_ws snd]. intros _.
+    intros p w s W. destruct (int_rand_in_range p w s) as (w' & s' & -> & H). cbn [ok_ws snd]. intros _.
     destruct (wf_cfg s W) as [Hlo Hhi]. rewrite wf_z_iff in Hlo, Hhi.
     destruct (_ <? _).
     - destruct H as (z & -> & Hz). apply wf_push_int; [assumption|]. apply wf_z_iff. lia.
     - destruct H as [-> _]. assumption.
   Qed.
 
-  Lemma float_rand_safe : sem_safe float_rand.
+  Lemma float_rand_safe : sem_safe0 float_rand.
   Proof.
-    intros p w s W _. destruct (float_rand_in_range p w s) as (w' & s' & -> & H). cbn [ok_ws snd]. intros _.
+    intros p w s W. destruct (float_rand_in_range p w s) as (w' & s' & -> & H). cbn [ok_ws snd]. intros _.
     destruct (_ && _).
     - destruct H as (x & -> & _). now apply wf_push_float.
     - destruct H as [-> _]. assumption.
@@ -77,9 +77,9 @@ Section Rand.
   Lemma st_int_cons s n ir : wf_state s -> st_int s = n :: ir -> wf_z n /\ Forall wf_z ir.
   Proof. intros W E. pose proof (wf_int s W) as H. rewrite E in H. now apply Forall_cons_iff in H. Qed.
 
-  Lemma code_rand_safe instrs : sem_safe (code_rand instrs).
+  Lemma code_rand_safe instrs : sem_safe0 (code_rand instrs).
   Proof.
-    intros p w s W _. destruct (st_int s) as [|n ir] eqn:E.
+    intros p w s W. destruct (st_int s) as [|n ir] eqn:E.
     - unfold code_rand. rewrite E. cbn [ok_ws snd]. auto.
     - destruct (st_int_cons s n ir W E) as [Hn Hir].
       destruct (code_rand_bound instrs p w s n ir E) as (w' & s' & -> & H). cbn [ok_ws snd]. intros _.
@@ -87,19 +87,19 @@ Section Rand.
       apply wf_push_code; [now apply wf_set_int|]. eapply valid_gen_wf; eauto.
   Qed.
 
-  Lemma name_rand_safe : sem_safe name_rand.
-  Proof. intros p w s W _. unfold name_rand. cbn [ok_ws snd]. intros _. now apply wf_push_name. Qed.
+  Lemma name_rand_safe : sem_safe0 name_rand.
+  Proof. intros p w s W. unfold name_rand. cbn [ok_ws snd]. intros _. now apply wf_push_name. Qed.
 
-  Lemma name_rand_bound_safe : sem_safe name_rand_bound.
+  Lemma name_rand_bound_safe : sem_safe0 name_rand_bound.
   Proof.
-    intros p w s W _. unfold name_rand_bound.
+    intros p w s W. unfold name_rand_bound.
     destruct (existing_ok (st_bind s) (w_tape w)) as (nm & t' & -> & _).
     cbn [rbind ok_ws fst snd]. intros _. now apply wf_push_name.
   Qed.
 
-  Lemma int_vector_rand_safe : sem_safe int_vector_rand.
+  Lemma int_vector_rand_safe : sem_safe0 int_vector_rand.
   Proof.
-    intros p w s W _. destruct (st_int s) as [|size [|hi [|lo ir]]] eqn:E;
+    intros p w s W. destruct (st_int s) as [|size [|hi [|lo ir]]] eqn:E;
       try (unfold int_vector_rand; rewrite E; cbn [ok_ws snd]; auto; fail).
     pose proof (wf_int s W) as Hi. rewrite E in Hi. wf_hyps.
     destruct (iv_params_ok size lo hi) eqn:P.
@@ -111,9 +111,9 @@ Section Rand.
       now apply wf_set_int.
   Qed.
 
-  Lemma float_vector_rand_safe : sem_safe float_vector_rand.
+  Lemma float_vector_rand_safe : sem_safe0 float_vector_rand.
   Proof.
-    intros p w s W _. destruct (st_int s) as [|size ir] eqn:E;
+    intros p w s W. destruct (st_int s) as [|size ir] eqn:E;
       [unfold float_vector_rand, float_vector_rand_g; rewrite E; cbn [ok_ws snd]; auto|].
     destruct (st_int_cons s size ir W E) as [Hn Hir].
     destruct (st_float s) as [|mean [|sd fr]] eqn:F;
@@ -126,9 +126,9 @@ Section Rand.
       apply wf_set_float. now apply wf_set_int.
   Qed.
 
-  Lemma bool_vector_rand_safe : fo_nbits -> sem_safe bool_vector_rand.
+  Lemma bool_vector_rand_safe : fo_nbits -> sem_safe0 bool_vector_rand.
   Proof.
-    intros NB p w s W _. destruct (st_int s) as [|size ir] eqn:E;
+    intros NB p w s W. destruct (st_int s) as [|size ir] eqn:E;
       [unfold bool_vector_rand, bool_vector_rand_g; rewrite E; cbn [ok_ws snd]; auto|].
     destruct (st_int_cons s size ir W E) as [Hn Hir].
     destruct (st_float s) as [|sp fr] eqn:F;
@@ -144,7 +144,7 @@ Section Rand.
   Lemma rand_safe instrs : fo_nbits -> table_safe (tbl_rand instrs).
   Proof.
     intros NB. unfold table_safe, tbl_rand.
-    repeat (apply Forall_cons; [cbn [snd]|]); try apply Forall_nil;
+    repeat (apply Forall_cons; [entry_open|]); try apply Forall_nil;
       auto using boolean_rand_safe, integer_rand_safe, float_rand_safe, code_rand_safe, name_rand_safe,
         name_rand_bound_safe, bool_vector_rand_safe, int_vector_rand_safe, float_vector_rand_safe.
   Qed.
